@@ -198,6 +198,11 @@ def css_value(rng):
     if r < 0.90:
         ex = obf_keyword('expression', rng)
         return ex + rng.choice(['', ' ', '/**/']) + '(' + rng.choice(['alert(1)', 'x', '']) + rng.choice([')', ''])
+    if r < 0.93:
+        # a CSS escape that produces an ampersand: the decoded text holds a character reference
+        # (class of the repaired finding C06-css-escape-reference)
+        return rng.choice(['url(\\26 #106avascript:alert(1))', 'url(\\26 #106;avascript:x)', 'url(\\000026#x6a\\3b avascript:x)',
+                           'url(\\26 amp\\3b #106\\3b avascript:x)', '\\26 lt\\3b', 'url(\\26#106 avascript:x)'])
     return rng.choice(['\\110000', '\\d800', '\\0', '\\dfff ', '\\ffffff', '\\', '\\\n', '\\\r\n', '\\;', '\\(',
                        '\\:', '\\"', '\\10ffff', '\\00000041', '\\1234567', '\\g', '\\ ', '\\\\', '\\\\75 rl(x:y)'])
 
